@@ -284,6 +284,7 @@ class Program:
         self.by_last = {}       # last segment -> [Body]
         self.closure_by_loc = {}
         self.impl_self = {}     # "src/x.rs:LINE" -> header text
+        self.promoted = {}      # index -> [(base name, Body)]
         self._load(path)
         self.enums = dict(BUILTIN_ENUMS)
         self._scrape_enums()
@@ -310,6 +311,16 @@ class Program:
                     if mm:
                         self.closure_by_loc[mm.group(1)] = b
             self.by_last.setdefault(last, []).append(b)
+        for m in re.finditer(r"^const (.+?)::promoted\[(\d+)\]: (.+?) = \{$", src, re.M):
+            end = src.find("\n}\n", m.end())
+            b = Body(m.group(1) + "::promoted[%s]" % m.group(2), [], m.group(3), src[m.end():end], 0)
+            self.promoted.setdefault(int(m.group(2)), []).append((m.group(1), b))
+
+    def find_promoted(self, frame_body_name, idx):
+        for base, b in self.promoted.get(idx, []):
+            if frame_body_name == base or frame_body_name.endswith("::" + base) or base.endswith("::" + frame_body_name):
+                return b.parse()
+        return None
 
     def _scrape_enums(self):
         srcdir = os.path.join(REPO, "src")
@@ -401,6 +412,13 @@ class Program:
             raise LookupError("find(%r,%r,%r,closure=%r,trait=%r): %d candidates: %s" % (
                 file, self_type, method, closure, trait, len(cands), [c.name for c in cands][:6]))
         return cands[0].parse()
+
+    def find_name(self, name):
+        """Find a body by its exact MIR item name (e.g. a provided trait method `Trait::method`)."""
+        c = self.bodies.get(name, [])
+        if len(c) != 1:
+            raise LookupError("find_name(%r): %d candidates" % (name, len(c)))
+        return c[0].parse()
 
     def resolve_callee(self, callee):
         """Map a call-site callee path to a Body if it is a crate function."""
@@ -974,6 +992,17 @@ class Engine:
     def eval_operand(self, st, s, frame, ty_hint=None):
         s = s.strip()
         if s.startswith("const "):
+            m = re.search(r"::promoted\[(\d+)\]$", s)
+            if m:
+                pb = self.prog.find_promoted(frame["body"].name, int(m.group(1)))
+                if pb is not None and list(pb.blocks) == ["bb0"]:
+                    key = ("promoted", pb.name)
+                    if key not in st.memo:
+                        pf = {"id": "P%d" % abs(hash(pb.name)) , "body": pb, "dest": None, "ret_bb": None}
+                        for stmt in pb.blocks["bb0"]["stmts"][:-1]:
+                            self.exec_stmt(st, stmt, pf)
+                        st.memo[key] = dict(self.load(st, (pf["id"] + ":_0",), pb.ret))
+                    return dict(st.memo[key])
             return self.eval_const(s[6:], ty_hint)
         m = re.match(r"^(?:no_retag )?(copy|move) (.*)$", s)
         if m:
